@@ -111,13 +111,27 @@ fn hexval(c: char) -> Option<u8> {
 pub fn ref_decode(input: &str) -> Ref {
     let mut digits: Vec<u8> = Vec::with_capacity(input.len());
     let mut nonhex = false;
-    for c in input.chars() {
-        if c.is_whitespace() {
-            continue;
+    if input.is_ascii() {
+        // same reading as the general loop below, byte-wise (ASCII whitespace per char::is_whitespace:
+        // TAB, LF, VT, FF, CR, SPACE)
+        for &b in input.as_bytes() {
+            match b {
+                b'0'..=b'9' => digits.push(b - b'0'),
+                b'a'..=b'f' => digits.push(b - b'a' + 10),
+                b'A'..=b'F' => digits.push(b - b'A' + 10),
+                9..=13 | 32 => {}
+                _ => nonhex = true,
+            }
         }
-        match hexval(c) {
-            Some(v) => digits.push(v),
-            None => nonhex = true,
+    } else {
+        for c in input.chars() {
+            if c.is_whitespace() {
+                continue;
+            }
+            match hexval(c) {
+                Some(v) => digits.push(v),
+                None => nonhex = true,
+            }
         }
     }
     if nonhex {
